@@ -2,6 +2,8 @@
 //! Positions are tokens `xa:ya:xo:yo:chain:type`; directions `l r t b i` (i = Direction::Invalid).
 //! Replies: `ok ...` or (from main.rs) `panic <file>:<line> <msg>`.
 //!
+//!   gp consts                                             -> ok MARK CURSIVE RIGHT_TO_LEFT IGNORE_MARKS IGNORE_FLAGS
+//!                                                              gp:BASE_GLYPH gp:MARK HAS_GPOS_ATTACHMENT up:IGNORABLE
 //!   gp prop <dir> <len> <i> <pos...>                      one propagate_attachment_offsets call  -> ok <pos...>
 //!   gp finish <dir> <len> <has 0|1> <pos...>              GPOS::position_finish_offsets          -> ok <pos...>
 //!   gp start <len> <pos...>                               GPOS::position_start                   -> ok <pos...>
@@ -118,13 +120,14 @@ fn kinfos(s: &str) -> Option<Vec<k::I>> {
             }
             let mark: u8 = v[2].parse().ok()?;
             let di: u8 = v[3].parse().ok()?;
-            // glyph_props: MARK = 0x08, BASE_GLYPH = 0x02; unicode_props: IGNORABLE = 0x20 with general
-            // category OtherLetter-ish (low 5 bits = 7 'Lo') so that it is not a format (ZWJ/ZWNJ) character
+            // glyph_props: MARK / BASE_GLYPH; unicode_props: IGNORABLE with general category
+            // OtherLetter (low 5 bits = 7) so that it is not a format (ZWJ/ZWNJ) character
+            let c = g::consts();
             Some((
                 v[0].parse().ok()?,
                 v[1].parse().ok()?,
-                if mark != 0 { 0x08 } else { 0x02 },
-                if di != 0 { 0x20 | 7 } else { 7 },
+                if mark != 0 { c[6] as u16 } else { c[5] as u16 },
+                if di != 0 { c[8] as u16 | 7 } else { 7 },
             ))
         })
         .collect()
@@ -132,6 +135,10 @@ fn kinfos(s: &str) -> Option<Vec<k::I>> {
 
 pub fn handle(toks: &[&str], _st: &mut crate::State) -> Option<String> {
     match (toks[0], *toks.get(1)?) {
+        ("gp", "consts") => Some(format!(
+            "ok {}",
+            g::consts().iter().map(|x| x.to_string()).collect::<Vec<_>>().join(" ")
+        )),
         ("gp", "prop") => {
             let d = dir(toks.get(2)?)?;
             let len: usize = toks.get(3)?.parse().ok()?;
